@@ -23,7 +23,7 @@ RULE = (
     "wake-up lateness) with some steps longer than the 30 s post-processing interval, requests with 1-2 dependent sub-requests, "
     "error outcomes under on-error=continue, pre-emption windows {0, 1/1024, 1/64, 1/8} s at Future.done() inside actor handlers (executor "
     "thread work happening while a handler runs) and, in a quarter of the cases, inside Sampler.add() (the actor thread ships samples while the executor thread is about to enqueue every k-th sample); settings class: default | down-sample factor 2 or 7 | sample queue size 1-3; 1 in 40: a burst task of 1 500-20 000 requests "
-    "within one wake-up interval (plus a fixed replay case with 72 000); in a third of the races with a parallel element two or more of its tasks run operations of one name. "
+    "within one wake-up interval (plus a fixed replay case with 72 000); in a third of the races with a parallel element two or more of its tasks run operations of one name; with a tiny queue every sample handed in while the queue had room must have its records. "
     "Non-trivial = >= 2 workers and >= 2 steps and at least one periodic post-processing tick stored records inside a step. "
     "Distinct = distinct canonical JSON."
 )
@@ -34,7 +34,7 @@ ASSUMPTIONS = [
     "records are matched to requests by (name, task, operation, client id, timestamp within 1 ms); consecutive requests of one client are >= 3.9 ms apart by construction",
 ]
 BUDGET = {"quick": 450, "thorough": 4000}
-REQUIRED_CLASSES = {"preempted-handler": 40, "multi-worker": 100, "periodic-tick-inside-step": 40, "downsample": 40, "tiny-queue": 40, "sub-requests": 100, "shipment-inside-sampler-add": 40}
+REQUIRED_CLASSES = {"tiny-queue-overflowed-and-had-room-again": 10, "preempted-handler": 40, "multi-worker": 100, "periodic-tick-inside-step": 40, "downsample": 40, "tiny-queue": 40, "sub-requests": 100, "shipment-inside-sampler-add": 40}
 
 
 @st.composite
